@@ -396,7 +396,7 @@ class Unbalanced(Exception):
     pass
 
 
-def _step(e, inloop, held, kind, params):
+def _step(e, inloop, held, kind, params, strict=False):
     """('cont', held) | ('done', ok, reason)"""
     k = e[0]
 
@@ -438,7 +438,7 @@ def _step(e, inloop, held, kind, params):
             h = held
             res = None
             for e2 in body:
-                r = _step(e2, True, h, kind, params)
+                r = _step(e2, True, h, kind, params, strict)
                 if r[0] == 'done':
                     res = r
                     break
@@ -484,6 +484,8 @@ def _step(e, inloop, held, kind, params):
             return ('done', False, f'bare node {e[1]} returned to Python')
         return ('done', not strip(held), f'still held at return: {strip(held)}')
     if k == 'raise':
+        if strict:
+            return ('done', not strip(held), f'still held at the raise: {strip(held)}')
         return ('done', True, '')
     return ('cont', held)
 
@@ -496,11 +498,24 @@ def _derefs(p):
     return [e[1] for e in p if e[0] in ('deref', 'derefl')]
 
 
-def balanced(m, p):
+# functions whose raising paths may still hold something (internal assertion failures, NULL
+# results of the library), with the number of such paths: the statement of
+# C19_raising_paths_<lib> in coq/Properties/C19.v
+RAISE_EXEMPT = {
+    'cudd': {'BDD._load_dddmp': 1, '_test_incref': 1, '_test_decref': 1},
+    'cudd_zdd': {'_c_compose': 3, '_compose_root': 2, '_compose': 5},
+    'sylvan': {},
+    'buddy': {},
+}
+
+
+def balanced(m, p, strict=False):
     """(ok, reason)"""
     if m['api'] is not None:
         simple = all(e[0] in ('ref', 'deref', 'derefl', 'ret_other', 'raise') for e in p)
         if simple and p and p[-1][0] == 'raise':
+            if strict and (_refs(p) or _derefs(p)):
+                return False, 'forwarder changes a count and then raises'
             return True, ''
         evs = _refs(p) + _derefs(p)
         ok = (simple and (not _derefs(p) if m['api'] else not _refs(p)) and len(evs) <= 1
@@ -512,7 +527,7 @@ def balanced(m, p):
         return False, 'a node is wrapped twice on one path'
     held = []
     for e in p:
-        r = _step(e, False, held, m['kind'], m['params'])
+        r = _step(e, False, held, m['kind'], m['params'], strict)
         if r[0] == 'done':
             return r[1], ('' if r[1] else r[2])
         held = r[1]
@@ -590,6 +605,25 @@ def check_refs(ctx, cref):
                                   f'{lib} {m["name"]}: {why}',
                                   dict(lib=lib, function=m['name'], source=f'{src}:{m["line"]}',
                                        path_index=i, path=p, reason=why))
+        # raising paths included (strict discipline), up to the named exceptions
+        for m in d['methods']:
+            failing = []
+            for i, p in enumerate(m['paths']):
+                if _ends_in_raise(p):
+                    ctx.count(f'{lib}:raising-path')
+                ok, why = balanced(m, p, strict=True)
+                if not ok:
+                    failing.append((i, p, why))
+            allowed = RAISE_EXEMPT[lib].get(m['name'], 0)
+            if failing:
+                ctx.count(f'{lib}:raising-path-holding-a-reference', len(failing))
+            if len(failing) > allowed:
+                i, p, why = failing[-1]
+                ctx.violation(f'C19:ref-raise:{lib}:{m["name"]}',
+                              f'{lib} {m["name"]}: {len(failing)} raising path(s) leave a reference behind '
+                              f'({allowed} known): {why}',
+                              dict(lib=lib, function=m['name'], source=f'{src}:{m["line"]}',
+                                   paths=[dict(path_index=i2, path=p2, reason=w2) for i2, p2, w2 in failing]))
         for r in d['returns']:
             for x in r['rets']:
                 ctx.case((lib, r['name'], 'return', x['line']))
